@@ -359,6 +359,21 @@ def append(x, y):
     return Arr(_items(x) + (_items(y) if _is_seq(y) else [y]))
 
 
+def roll(x, shift):
+    l = _items(x)
+    k = _int(shift) % len(l) if l else 0
+    return Arr(l[-k:] + l[:-k]) if k else Arr(l)
+
+
+def flip(x):
+    return Arr(_items(x)[::-1])
+
+
+def diff(x):
+    l = _items(x)
+    return Arr([_sop(b, a, '-') for a, b in zip(l, l[1:])])
+
+
 def concatenate(xs):
     out = []
     for x in xs:
